@@ -64,6 +64,36 @@ def top2(x):
     return "top2(%s)" % mid(x)
 
 
+@m.memento_function(cluster="vfc")
+def hid_a(x):
+    """Automatic version; reaches solo_a by a run-time lookup the dependency analysis cannot see: must be refused."""
+    sys.audit("vf.body", "hid_a", x)
+    return "hid(%s)" % globals()["solo" + "_a"](x)
+
+
+@m.memento_function(cluster="vfc", version="1")
+def ex(x):
+    """Explicit version (exempt from the run-time dependency check) calling solo_b."""
+    sys.audit("vf.body", "ex", x)
+    return "ex(%s)" % solo_b(x)
+
+
+@m.memento_function(cluster="vfc", version="1")
+def pa(x):
+    from twosigma.memento.partition import InMemoryPartition
+
+    sys.audit("vf.body", "pa", x)
+    return InMemoryPartition({"a": "pa-%s" % x, "s": "shared"})
+
+
+@m.memento_function(cluster="vfc", version="1")
+def pb(x):
+    from twosigma.memento.partition import InMemoryPartition
+
+    sys.audit("vf.body", "pb", x)
+    return InMemoryPartition({"b": "pb-%s" % x, "c": [1, 2], "s": "shared"})
+
+
 class Transient(NonMemoizedException):
     pass
 
@@ -91,22 +121,53 @@ def flaky(x):
 
 
 # the reference: what an un-memoized program returns, and the call tree below each call
-CALLS = {"flaky": (), "gnone": (), "g": (), "h": (), "solo_a": (), "solo_b": (), "leaf": (), "mid": ("leaf",), "top1": ("mid",), "top2": ("mid",)}
-_FMT = {"flaky": "flaky-%s", "g": "val-%s", "h": "other-%s", "solo_a": "a-%s", "solo_b": "b-%s", "leaf": "leaf-%s", "mid": "mid(%s)",
+CALLS = {"hid_a": (), "ex": ("solo_b",), "pa": (), "pb": (), "flaky": (), "gnone": (), "g": (), "h": (), "solo_a": (), "solo_b": (), "leaf": (), "mid": ("leaf",), "top1": ("mid",), "top2": ("mid",)}
+_FMT = {"ex": "ex(%s)", "flaky": "flaky-%s", "g": "val-%s", "h": "other-%s", "solo_a": "a-%s", "solo_b": "b-%s", "leaf": "leaf-%s", "mid": "mid(%s)",
         "top1": "top1(%s)", "top2": "top2(%s)"}
 
 
+CTX = {"k": 1}  # the context arguments a call spelled "name@ctx" is made under
+
+
+def base(fn):
+    return fn.split("!")[0].split("@")[0]
+
+
+def fobj(fn):
+    """The callable a call specification denotes: "name", "name@ctx" (with context arguments), "name!ignore"."""
+    f = globals()[base(fn)]
+    if "@ctx" in fn:
+        f = f.with_context_args(CTX)
+    if fn.endswith("!ignore"):
+        f = f.ignore_result()
+    return f
+
+
 def expected(fn, x):
-    if fn == "gnone" or fn.endswith("!ignore"):
+    """Value of the plain program; ("raises", class name) where the library must refuse; partitions as dicts."""
+    if fn.endswith("!ignore"):
         return None
+    fn = base(fn)
+    if fn == "gnone":
+        return None
+    if fn == "hid_a":
+        return ("raises", "UndeclaredDependencyError")
+    if fn == "pa":
+        return {"a": "pa-%s" % x, "s": "shared"}
+    if fn == "pb":
+        return {"b": "pb-%s" % x, "c": [1, 2], "s": "shared"}
     inner = CALLS[fn]
     return _FMT[fn] % (expected(inner[0], x) if inner else x)
 
 
 def closure(fn, x):
-    """All distinct (function, argument) calls made by fn(x), itself included, in call order."""
-    fn = fn.split("!")[0]
-    out = [(fn, x)]
+    """All distinct calls made by fn(x), itself included, in call order. Nested calls inherit the context arguments,
+    so they keep the "@ctx" mark: the same function and argument under other context arguments is another call."""
+    mark = "@ctx" if "@ctx" in fn else ""
+    fn = base(fn)
+    if fn == "hid_a":
+        return [(fn + mark, x)]  # the hidden call is refused before anything runs beneath it
+    out = [(fn + mark, x)]
     for c in CALLS[fn]:
-        out += closure(c, x)
+        out += closure(c + mark, x)
     return out
